@@ -187,6 +187,42 @@ package tex
 //@   ensures #roundtrip result1 == nil && spec_unix(time.Time(result0)) == spec_unix(time.Time(v))
 //@   modifies region($alloc), Unix2Time.wall, Unix2Time.ext, Unix2Time.loc
 //
+// ---- base64 bytes and the time.Time-valued SQL forms ----
+//@ func Base64Bytes.Value
+//@   ensures #value result1 == nil && tag(result0) == tagof(string) && string(result0) == b64enc(base64.RawStdEncoding, string(i))
+//@   modifies
+//@ func Base64Bytes.Scan
+//@   requires i != nil
+//@   ensures #string tag(value) == tagof(string) ==> (result == nil <==> isb64(base64.RawStdEncoding, string(value))) && (result == nil ==> string(deref(i)) == b64dec(base64.RawStdEncoding, string(value)))
+//@   ensures #bytes tag(value) == tagof([]byte) ==> (result == nil <==> isb64(base64.RawStdEncoding, string([]byte(value)))) && (result == nil ==> string(deref(i)) == b64dec(base64.RawStdEncoding, string([]byte(value))))
+//@   ensures #other tag(value) != tagof(string) && tag(value) != tagof([]byte) ==> result != nil
+//@   ensures #untouched result != nil ==> deref(i) == old(deref(i))
+//@   modifies deref(i), region($alloc)
+//@ func verifRoundTripBase64
+//@   ensures #roundtrip result1 == nil && string(result0) == string(v)
+//@   modifies region($alloc)
+//@ func UnixStamp.Value
+//@   ensures #value result1 == nil && tag(result0) == tagof(time.Time) && spec_unix(time.Time(result0)) == int64(i)
+//@   modifies
+//@ func UnixStamp.Scan
+//@   requires i != nil
+//@   ensures #ok result == nil
+//@   ensures #time tag(value) == tagof(time.Time) ==> int64(deref(i)) == spec_unix(time.Time(value))
+//@   ensures #other tag(value) != tagof(time.Time) ==> deref(i) == old(deref(i))
+//@   modifies deref(i)
+//@ func SQLTime2Unix.Value
+//@   ensures #value result1 == nil && tag(result0) == tagof(time.Time) && spec_unix(time.Time(result0)) == int64(i)
+//@   modifies
+//@ func SQLTime2Unix.Scan
+//@   requires i != nil
+//@   ensures #ok result == nil
+//@   ensures #time tag(value) == tagof(time.Time) ==> int64(deref(i)) == spec_unix(time.Time(value))
+//@   ensures #other tag(value) != tagof(time.Time) ==> deref(i) == old(deref(i))
+//@   modifies deref(i)
+//@ func verifRoundTripUnixStamp2
+//@   ensures #roundtrip result2 == nil && result0 == v && result1 == w
+//@   modifies region($alloc)
+//
 // ---- JsByte encoder: the decimal numerals of the bytes, separated by '/' ----
 // joff(i, j): length of the encoding of the first j items (each numeral, plus one separator unless it is the last item of i)
 //@ opaque joff(i JsByte, j int) int
